@@ -1594,6 +1594,10 @@ def c08(sc, V):
             break
         if s.kind() == "sig" and s.op[1] == "quit" and signalled is None:
             signalled = (s.n, s.before.slot)
+        if signalled is not None and s.snap.stopping:
+            # the shutdown has been started: the signal was not lost (whether the shutdown can complete is judged below; since
+            # fix 273f512 a failed arbiter restart may clear the flag of a shutdown that failed on an unsignalable worker)
+            signalled = None
         if signalled is not None and not s.snap.blocked and s.snap.quiescent() and not s.snap.stopping:
             f.append({"sig": "termination-signal-lost" + ("-while-busy" if signalled[1] else ""), "step": s.n,
                       "msg": "SIGTERM/INT/QUIT arrived at step %d (exclusive slot then: %s); nothing is in flight any more and no "
